@@ -60,6 +60,7 @@ class Tracer:
         self.waiting = set()  # tids between want and got
         self.holder = None    # harness' own view of the lock
         self.worker_tids = set()
+        self.auto = set()     # tids whose rounds are derived from what they do (wait_for_ecu)
         self.next_tid = 1
         self.orig_sleep = None
         self.misuse = []      # (index into sched, tid, label, holder) wire ops completed by a task that does not hold the lock
@@ -156,10 +157,12 @@ class Tracer:
 def make_lock(tr):
     class TracingLock(asyncio.Lock):
         async def acquire(self):
+            i = tr.tid()
+            if i in tr.auto:
+                tr.begin_round(i, ("?",))
             tr.enter("want")
             tr.old("want")
             tr.step("want")
-            i = tr.tid()
             tr.waiting.add(i)
             try:
                 r = await super().acquire()
@@ -240,7 +243,7 @@ def make_wire(tr, net):
             i = tr.tid()
             if i is not None:
                 r = tr.cur_round(i)
-                if r["desc"][0] == "C":
+                if r["desc"][0] in ("C", "?"):
                     r["desc"] = ("C", res)
                 else:
                     r["rcs"].append(res)
@@ -267,7 +270,10 @@ def make_wire(tr, net):
             res, replies = net.plan(data, k)
             i = tr.tid()
             if i is not None:
-                tr.cur_round(i)["writes"].append(res)
+                r = tr.cur_round(i)
+                if r["desc"][0] == "?":
+                    r["desc"] = ("R", data.hex(), ms(TIMEOUT), 0, None if timeout is None else ms(timeout), 0)
+                r["writes"].append(res)
             tr.step("w")
             if res == "C":
                 raise ConnectionResetError("scripted")
@@ -410,6 +416,12 @@ async def scenario(spec, cancel_at):
             return await orig_sleep(delay, result)
         if i in tr.worker_tids and i not in tr.inside:
             tr.begin_round(i, ("W", ms(delay)))
+        elif i in tr.auto and i not in tr.inside:
+            cur = tr.rounds[i][-1] if tr.rounds[i] else None
+            if not (cur is not None and cur["desc"][0] == "A" and not cur.get("slept")):
+                tr.begin_round(i, ("S", ms(delay)))
+            else:
+                cur["slept"] = True
         tr.enter("s")
         r = await orig_sleep(delay, result)
         tr.step(f"s{ms(delay)}")
@@ -421,6 +433,8 @@ async def scenario(spec, cancel_at):
             w = tr.register(t, worker=True)
             i = tr.tid()
             if i is not None:
+                if i in tr.auto:
+                    tr.begin_round(i, ("A", w))
                 r = tr.cur_round(i)
                 if r["desc"][0] == "A":
                     r["desc"] = ("A", w)
@@ -480,12 +494,41 @@ async def scenario(spec, cancel_at):
         await orig_sleep(0.5)
         w = tr.ids.get(ecu.tester_present_task, 0)
         r = tr.begin_round(i, ("Z", w))
-        tr.step(f"stop{w}")
-        if w in tr.waiting:  # cancel() is the next thing stop_cyclic_tester_present() does, without suspending
-            tr.note_cancelled_waiter(w)
         await ecu.stop_cyclic_tester_present()
-        tr.step(f"join{w}")
         tr.end_round(r)
+
+    orig_stop = ecu.stop_cyclic_tester_present
+
+    async def traced_stop():
+        i = tr.tid()
+        w = tr.ids.get(ecu.tester_present_task, 0)
+        live = i is not None and ecu.tester_present_task is not None
+        if live:
+            if i in tr.auto:
+                tr.begin_round(i, ("Z", w))
+            tr.step(f"stop{w}")
+            if w in tr.waiting:  # cancel() is the next thing stop_cyclic_tester_present() does, without suspending
+                tr.note_cancelled_waiter(w)
+        await orig_stop()
+        if live:
+            tr.step(f"join{w}")
+
+    ecu.stop_cyclic_tester_present = traced_stop
+
+    async def ecu_waiter(offset):
+        """ECU.wait_for_ecu(): stops the worker, pings every 0.5 s (reconnecting through the lock after a lost connection), restarts the worker"""
+        i = tr.register(asyncio.current_task())
+        tr.auto.add(i)
+        results[i] = []
+        await orig_sleep(offset)
+        try:
+            ok = await ecu.wait_for_ecu(timeout=10)
+            results[i].append((0, ("wfe", ok)))
+        except asyncio.CancelledError:
+            results[i].append((0, ("cancelled",)))
+            raise
+        except Exception as e:
+            results[i].append((0, (classify_exc(e, G),)))
 
     asyncio.sleep = traced_sleep
     asyncio.create_task = traced_create_task
@@ -501,6 +544,8 @@ async def scenario(spec, cancel_at):
         for d in spec["tasks"]:
             if d[0] == "req":
                 tasks.append(asyncio.ensure_future(caller(d[1], d[2])))
+            elif d[0] == "wfe":
+                tasks.append(asyncio.ensure_future(ecu_waiter(d[1])))
             else:
                 tasks.append(asyncio.ensure_future(reconnecter(d[1])))
         done, pending = await asyncio.wait(tasks, timeout=120) if tasks else (set(), set())
@@ -523,7 +568,7 @@ async def scenario(spec, cancel_at):
         asyncio.sleep = orig_sleep
         asyncio.create_task = orig_create_task
     return {"events": tr.events, "sched": tr.sched, "rounds": tr.rounds, "results": results, "reqs": reqs, "stuck": stuck,
-            "count": dict(tr.count), "workers": sorted(tr.worker_tids), "misuse": tr.misuse}
+            "count": dict(tr.count), "workers": sorted(tr.worker_tids), "misuse": tr.misuse, "auto": sorted(tr.auto)}
 
 
 def _fmt(events):
@@ -545,6 +590,8 @@ def round_token(r):
         return f"W/{d[1]}/{ms(TIMEOUT)}/{rds}/{wrs}"
     if d[0] == "C":
         return f"C/{d[1]}"
+    if d[0] == "?":  # acquired (or still waiting) when it was cancelled: nothing of the call was seen
+        return f"R/3e00/{ms(TIMEOUT)}/0/500/0/-/-/-"
     return f"{d[0]}/{d[1]}"
 
 
@@ -614,6 +661,16 @@ def gen_specs(ctx):
     ctx.exhaustive_parts.append("reply crossing: first caller {late, slow, pending} x second caller {immediate, slow, pending, timeout, late} x "
                                 "{typed, send_raw}^2 (same service, different identifiers) x worker on/off, each also with the first caller "
                                 "cancelled at every await")
+    # (3b) wait_for_ecu(): stops the worker, pings, reconnects through the lock after a lost connection, restarts the worker
+    for ws in (["imm"], ["error", "imm"], ["timeout", "imm"], ["eof", "error", "imm"], ["wfaultC", "imm"]):
+        for b in ("imm", "pend", "late", "error"):
+            for tpw in (False, True):
+                for off in (0.0, 0.4):
+                    did[0] = 0x1300
+                    specs.append({"tasks": [("wfe", off), ("req", 0.1, [call(b, 1 if b == "error" else 0)]), ("req", 0.6, [call("imm", 0, "raw")])],
+                                  "worker": tpw, "worker_scripts": ws, "rc": "o"})
+    ctx.exhaustive_parts.append("ECU.wait_for_ecu() (stop worker, ping every 0.5 s, reconnect() through the lock after a lost connection, restart "
+                                "worker) x 5 ping scripts x 4 competing caller scripts x worker on/off x 2 offsets")
     # (4) 3..5 tasks sampled, two calls per task possible
     allk = OLD_KINDS + NEW_KINDS
     for _ in range(ctx.pick(300, 1500)):
@@ -657,8 +714,10 @@ def run(ctx):
         except (Stall, Exception):
             continue
         for t, n in sorted(base["count"].items()):
-            if sp.get("cross") and t != 1 + (1 if sp.get("worker") else 0):
+            if sp.get("cross") and t != (3 if sp.get("worker") else 1):
                 continue  # crossing cases: the first caller only (the general enumeration covers everybody)
+            if t in base["auto"]:
+                continue  # wait_for_ecu() runs clean-up awaits (restart of the worker) while it is being cancelled: outside the model
             for j in range(1, min(n, ctx.pick(10, 16)) + 1):
                 cases.append((sp, (t, j)))
     ctx.exhaustive_parts.append("cancellation of each task at each of its first 10 (thorough: 16) instrumented awaits (lock acquire, write, read, "
@@ -738,8 +797,8 @@ def judge_serial(ctx, case, r):
             b = rd["begin"]
             e = rd.get("end", len(sched))
             for j in range(b, e):  # the caller's cancellation ends the exchange
-                if sched[j] == f"x:{i}":
-                    e = j
+                if sched[j] == f"x:{i}" or (i in r["auto"] and sched[j] == f"r:{i}:rel"):
+                    e = j  # (calls made inside wait_for_ecu() are not delimited by the harness: they end with their release)
                     break
             fw = next((j for j in range(b, e) if sched[j] == f"r:{i}:w"), None)
             if fw is None:
